@@ -9,6 +9,7 @@ that a maintainer's harmless refactor does not become a refused translation (= a
              became empty, every type annotation (`x: T = v` -> `x = v`, `x: T` dropped, argument / return annotations)
   spellings  `x.to_numpy()` -> `x.values`;  `not len(x)` -> `len(x) == 0`;  `range(0, n)` -> `range(n)`;
              `if not c: A else: B` -> `if c: B else: A` (statement and conditional expression; never an `elif` chain);
+             `if a != b: A else: B` -> `if a == b: B else: A`;
              `"..{}..".format(a)` with auto-numbered plain fields -> the f-string;  `<literal> == x` -> `x == <literal>`
 
 Every rewrite is an equivalence of Python programs (for `.to_numpy()` / `.values`: of the pandas objects fairlearn
@@ -122,6 +123,13 @@ class _Normalise(ast.NodeTransformer):
                 and not (len(node.orelse) == 1 and isinstance(node.orelse[0], ast.If))
                 and not any(isinstance(s, ast.Pass) for s in node.body)):
             node.test, node.body, node.orelse = node.test.operand, node.orelse, node.body
+        # `if a != b: A else: B` -> `if a == b: B else: A`
+        t = node.test
+        if (self.swap_not and isinstance(t, ast.Compare) and len(t.ops) == 1 and isinstance(t.ops[0], ast.NotEq) and node.orelse
+                and not (len(node.orelse) == 1 and isinstance(node.orelse[0], ast.If))
+                and not any(isinstance(s, ast.Pass) for s in node.body)):
+            t.ops = [ast.Eq()]
+            node.body, node.orelse = node.orelse, node.body
         return node
 
     # ---- expressions
